@@ -1732,6 +1732,9 @@ func (env *LEnv) evalSExprCells(ctx context.Context, s *LVal) *LVal {
 		return f
 	}
 	if f.Type != LFun {
+		// Evaluating the head moved the current location into it; the error
+		// is about the call expression.
+		env.loc = loc
 		return env.Errorf("first element of expression is not a function: %v", f)
 	}
 	if f.Type == LMarkTailRec {
